@@ -23,8 +23,8 @@ IterOk(r) == LET w == S!WholeScanFast(r.buf) IN
              /\ Len(r.after) = 3
              /\ \A k \in 1..3 : r.after[k] = <<0, w.consumed>>
 
-TraceScan == IsEvent("Scan") /\ ScanOk(Rec[l])
-TraceIter == IsEvent("Iter") /\ IterOk(Rec[l])
+TraceScan == IsEvent("Scan") /\ ScanOk(Rec[l]) = TRUE
+TraceIter == IsEvent("Iter") /\ IterOk(Rec[l]) = TRUE
 Init == l = 1
 Next == TraceScan \/ TraceIter
 
